@@ -424,6 +424,9 @@ def run(tier, seed):
     if tier == "thorough":
         three = [(0, 0, 90, 60, 0), (80, 0, 170, 60, 3), (160, 0, 240, 60, 0)]
         cfgs += [MultiTanTree(size=(240, 60), rects=three, bottom_up=True, W=2), MultiTanTree(size=(240, 60), rects=three_small, bottom_up="mixed", W=2, io_points=False), MultiTanTree(size=(200, 60), rects=two, bottom_up=False, W=3), MultiTanTree(size=(300, 60), rects=[(0, 0, 160, 60, 0), (150, 0, 300, 60, 0)], bottom_up=True, W=2)]
+    # three inputs over four tile columns: one tile receives only the undefined border of the first input and data
+    # from the two others (a worker's stale view of which tiles exist would lose a neighbour's pixels)
+    cfgs.append(MultiTanTree(size=(518, 60), rects=[(0, 0, 262, 60, 3), (255, 0, 400, 60, 0), (390, 0, 518, 60, 0)], bottom_up=True, W=2, io_points=False, max_deviations=2 if tier == "quick" else None))
     # the same stage fed from FITS files through toasty's collection loader with a blank value
     cfgs.append(stages.MultiTan(nimg=3, W=2, from_files=True, max_deviations=2 if tier == "quick" else 4))
     for c in cfgs:
